@@ -34,9 +34,12 @@ KINDS = {
     # local configurations that differ in their `ignore` list: I ignores its own file, J ignores something else
     "I": {"files": {"i.rs": "fn  i( ){\nlet z=3;}\n", "rustfmt.toml": "ignore = [\"i.rs\"]\n"}},
     "J": {"files": {"j.rs": "fn  j( ){\nlet w=4;}\n", "rustfmt.toml": "ignore = [\"elsewhere.rs\"]\ntab_spaces = 3\n"}},
+    # formatted except for its terminators, with an explicit newline_style: --check reports it through the session's writer
+    # ("Incorrect newline style in ..") while real diffs are printed directly
+    "C": {"files": {"c.rs": "fn c() {\r\n    let x = 1;\r\n}\r\n", "rustfmt.toml": "newline_style = \"Unix\"\n"}},
     "N": {"files": {}},       # a path that does not exist
 }
-ROOT = {"F": "f.rs", "U": "u.rs", "P": "p.rs", "L": "l.rs", "M": "m.rs", "T": "t.rs", "B": "b.rs", "N": "nothere.rs", "X": "x.rs", "I": "i.rs", "J": "j.rs"}
+ROOT = {"C": "c.rs", "F": "f.rs", "U": "u.rs", "P": "p.rs", "L": "l.rs", "M": "m.rs", "T": "t.rs", "B": "b.rs", "N": "nothere.rs", "X": "x.rs", "I": "i.rs", "J": "j.rs"}
 ANSI = re.compile(r"\x1b\[[0-9;]*m|\x1b\(B")
 
 
@@ -113,7 +116,7 @@ def run(tier, seed, replay):
             e.update({"LANG": "tr_TR.UTF-8", "LC_ALL": "C", "TZ": "Pacific/Kiritimati", "COLUMNS": "20", "NO_COLOR": "1", "CARGO": "/nonexistent"})
         return e
 
-    sets = [["I", "U", "J"], ["J", "I"], ["U"], ["F", "U"], ["U", "P", "L"], ["F", "U", "P", "L"], ["T", "L", "M"], ["L", "M", "N"], ["U", "X", "F"], ["U", "B", "F"]]
+    sets = [["C", "U", "F"], ["I", "U", "J"], ["J", "I"], ["U"], ["F", "U"], ["U", "P", "L"], ["F", "U", "P", "L"], ["T", "L", "M"], ["L", "M", "N"], ["U", "X", "F"], ["U", "B", "F"]]
     if tier != "quick":
         pool = ["F", "U", "P", "L", "M", "T", "N", "X"]
         for _ in range(10):
@@ -230,6 +233,15 @@ def run(tier, seed, replay):
         if diag(r) != want_diag:
             key = "bad_local_toml_aborts_loop" if has_b else "diagnostics_differ"
             viol(key, dict(rp, multi=dict(diag(r)), singles=dict(want_diag)), "diagnostics of the %s run are not the multiset union of the single-file runs'" % j["variant"])
+        # the standard-output STREAM of a multi-file run is the single-file outputs one after the other, in command-line order
+        # (every writer of the run shares the one stream: nothing may be held back or overtaken)
+        if j["variant"] == "multi" and j["mode"] in ("check", "stdout") and not has_b:
+            def norm_stream(rr):
+                return ANSI.sub("", rr["out"]).replace(rr["dir"], "<DIR>")
+            want_stream = "".join(norm_stream(singles[(j["set"], j["mode"], i)][1]) for i in j["order"])
+            if norm_stream(r) != want_stream:
+                viol("stdout_stream_not_in_order", dict(rp, multi=r["out"][-1500:], singles_in_order=want_stream[-1500:]),
+                     "standard output of the %s run over %s is not the single-file outputs in command-line order" % (j["mode"], j["order"]))
         if r["rc"] not in (0, 1):
             viol("exit_status_outside_01", rp, "the process ends with status %d" % r["rc"])
         if r["rc"] != max(exits):
@@ -246,7 +258,7 @@ def run(tier, seed, replay):
             exit_exprs.append("(run_exit_multi %s %s, run_exit_max %s %s)" % (coqterm.render(fl), coqterm.render(j["mode"] == "check"), coqterm.render(fl), coqterm.render(j["mode"] == "check")))
             exit_expect.append((j, r["rc"]))
         # --- model: the whole invocation
-        if j["variant"] == "multi":
+        if j["variant"] == "multi" and "C" not in kinds:      # (the session model has ONE newline_style for all inputs: sets with the explicit-style input C are judged by the oracles only)
             names = {}
             ins = []
             fsingle = {}
@@ -270,6 +282,32 @@ def run(tier, seed, replay):
                 obs_ops[n_] = 1 if (j["mode"] == "files" and r["after"].get(rel) != r["before"].get(rel)) else 0
             inv_expect.append((j, obs_ops, r["rc"]))
 
+    # ---- a module tree against its member files formatted on their own: the report of a member (line-width diagnostics with
+    # their line numbers) does not depend on what the other files of the tree contain (skip-marked items, their line numbers)
+    td = os.path.join(base, "tree_members")
+    wide = "w" * 90
+    for ti, (first, second) in enumerate([("aaa", "bbb"), ("zzz", "bbb")]):
+        for mode in ("files", "check"):
+            shutil.rmtree(td, ignore_errors=True)
+            os.makedirs(td)
+            tfiles = {"rustfmt.toml": "error_on_line_overflow = true\nmax_width = 60\n", "lib.rs": "mod %s;\nmod bbb;\n" % first if first != "bbb" else "mod bbb;\n",
+                      first + ".rs": "pub fn f() {}\n#[rustfmt::skip]\npub const K: u8 =\n    %s;\npub fn g() {}\n" % ("s" * 80),
+                      "bbb.rs": "pub fn h() {}\npub fn i() {\n    let x = %s;\n    let y = %s;\n}\n" % (wide, wide)}
+            for rel, t in tfiles.items():
+                open(os.path.join(td, rel), "w").write(t)
+            def runit(name):
+                rc, o, e = run_rf(exe, MODES[mode] + ["--color", "never", name], td, env_for("a"))
+                lines = Counter(re.sub(r"^.*?([a-z]+\.rs:\d+):.*$", r"\1", l) for l in ANSI.sub("", e).split("\n") if "-->" in l)
+                return rc, lines
+            rc_tree, d_tree = runit("lib.rs")
+            parts = [runit(n + ".rs") for n in sorted(set([first, "bbb"]))]
+            want = Counter()
+            for _rc, dd in parts:
+                want += dd
+            if d_tree != want or rc_tree != max([p_[0] for p_ in parts] + [0]):
+                viol("tree_report_differs_from_members", {"files": tfiles, "mode": mode, "tree": [rc_tree, dict(d_tree)], "members_alone": [[p_[0], dict(p_[1])] for p_ in parts]},
+                     "the diagnostics of the tree run (%r, exit %d) are not those of its member files formatted on their own (%r)" % (dict(d_tree), rc_tree, dict(want)))
+            nontrivial.add("tree_members_%d_%s" % (ti, mode))
     # ---- path vs standard input
     stdin_n = 0
     for k in ("F", "U", "L", "M", "P", "X"):
